@@ -7,5 +7,6 @@ CONSTANTS
   Depth = 5
   MaxDone = 2
   OutFile = "sema_sched_1.ndjson"
+  Kinds <- AllKinds
 INVARIANTS Emit GenOK
 CHECK_DEADLOCK FALSE
